@@ -4,7 +4,7 @@
    (IOEnv.TRACE_FILE), one TLC run validates them all (tid chosen by the first step).
 
    A trace  [kind, m, d, events]  is the history of ONE object:
-     construct  [out, tab, tabok, scale, scaleok]   constructor call; out = "ok" | "raised:<Type>";
+     construct  [out, tab, tabok, scale, scaleok, kok]   constructor call (kok: the object reports M points and K = log2 M bits); out = "ok" | "raised:<Type>";
                 tab = recorded table label -> integer coordinate (tabok: all coordinates were
                 integral at 1e-9), scale = exact rational (amplitude per lattice unit)^2 resp. radius^2
      setoff     [tab, tabok, scale, scaleok]        PSK.setPhaseOffset; table recorded after the call
@@ -114,6 +114,7 @@ DoConstruct(t, e) ==
                 THEN <<Mis("Rejects", IF t.kind = "QAM" /\ t.m = 1 THEN "QamAcceptsOne" ELSE "none", 0, "raised", e.out)>>
               ELSE IF sup /\ ~okc THEN <<Mis("Accepts", "none", 0, "ok", e.out)>>
               ELSE IF sup THEN TableMis("construct", gg, e)
+                               \o (IF e.kok THEN <<>> ELSE <<Mis("BitsPerSymbol", "none", 0, Log2(t.m), "other")>>)
               ELSE <<>>
      /\ checked' = IF sup /\ okc THEN 4 ELSE 1
 
@@ -136,6 +137,11 @@ Frame(e) == (IF e.argsok THEN <<>> ELSE <<Mis("ArgumentsUnchanged", "none", 0, "
             \o (IF e.op = "mod" /\ ~e.ownok THEN <<Mis("ResultNotAliased", "none", 0, "a result of its own", "shares memory with the symbol table")>> ELSE <<>>)
             \o (IF e.op = "mod" /\ ~e.frameok THEN <<Mis("RejectedChangesNothing", "none", 0, "symbol table as before the rejected call", "changed")>> ELSE <<>>)
 
+\* The laws are about index VALUES; dt records the integer type the harness stored them in (int8 .. uint64, bool,
+\* pyint) only so that a known deviation can be recognised by its argument class:
+\*   BpskUnsignedIndexWraps   BPSK, unsigned index type, an index 1 present (1 - 2*1 wraps in unsigned arithmetic)
+IdxSig(t, e) == IF t.kind = "BPSK" /\ e.dt \in {"uint8", "uint16", "uint32", "uint64"} /\ (\E j \in 1..Len(e.idx) : e.idx[j] = 1)
+                THEN "BpskUnsignedIndexWraps" ELSE "none"
 DoMod(t, e) ==
   LET n == Len(e.idx)
       over == \E j \in 1..n : e.idx[j] >= g.m
@@ -143,7 +149,7 @@ DoMod(t, e) ==
   IN /\ mm' = (IF over /\ e.out # "raised:ValueError" THEN <<Mis("IndexRaises", "none", 0, "raised:ValueError", e.out)>>
                ELSE IF ~over /\ e.out # "ok" THEN <<Mis("ModulateOk", "none", 0, "ok", e.out)>>
                ELSE <<>>)
-              \o (IF bad = {} THEN <<>> ELSE <<Mis("ModulateLaw", "none", First(bad), tab[e.idx[First(bad)] + 1],
+              \o (IF bad = {} THEN <<>> ELSE <<Mis("ModulateLaw", IdxSig(t, e), First(bad), tab[e.idx[First(bad)] + 1],
                                                    IF e.ptsok THEN e.pts[First(bad)] ELSE "not a point")>>)
               \o (IF ~over /\ e.out = "ok" /\ ~e.shapeok THEN <<Mis("ShapeKept", "none", 0, "input shape", "other")>> ELSE <<>>)
               \o Frame(e)
@@ -165,7 +171,7 @@ DoDemod(t, e) ==
 DoRoundTrip(t, e) ==
   LET n == Len(e.idx)
       bad == {j \in 1..n : e.lab[j] # e.idx[j]}
-  IN /\ mm' = (IF bad = {} THEN <<>> ELSE <<Mis("RoundTrip", "none", First(bad), e.idx[First(bad)], e.lab[First(bad)])>>)
+  IN /\ mm' = (IF bad = {} THEN <<>> ELSE <<Mis("RoundTrip", IdxSig(t, e), First(bad), e.idx[First(bad)], e.lab[First(bad)])>>)
               \o (IF ~e.shapeok THEN <<Mis("ShapeKept", "none", 0, "input shape", "other")>> ELSE <<>>)
               \o Frame(e)
      /\ checked' = n + 2
